@@ -66,7 +66,7 @@ def file_plans(ctx, rng):
 
 def tlc_file(ctx, task, n1, files_path, results_path=None, timeout=900):
     cfg = ("SPECIFICATION Spec\nCONSTANTS\n  Task = \"%s\"\n  FilesFile = \"files.ndjson\"\n  ResultsFile = \"results.ndjson\"\n  N1 = %d\n"
-           "INVARIANT %s\nCHECK_DEADLOCK FALSE\n" % (task, n1, "Plan" if task == "plan" else "Judge"))
+           "INVARIANT %s\nCHECK_DEADLOCK FALSE\n" % (task, n1, {"plan": "Plan", "judge": "Judge", "crash": "JudgeCrash"}[task]))
     files = {"f.cfg": cfg, "files.ndjson": files_path}
     if results_path:
         files["results.ndjson"] = results_path
@@ -154,6 +154,61 @@ def one_case(ctx, binary, f, res, n1, tag):
     return out
 
 
+def crash_histories():
+    """histories whose last step is acknowledged and rewrites a lease file that already holds 2-3 leases"""
+    h3 = hist([("c1", dc.NOA, ""), ("c2", dc.NOA, "n2"), ("c3", dc.NOA, "")])
+    renew = {"a": "request", "k": "c2", "m": "c2", "sid": "none", "ropt": dc.NOA, "ropts": "lit", "ci": dc.NOA, "cis": "ip:c2",
+             "srck": "ci", "xid": "x1", "prl": "none"}
+    return [h3, h3 + [renew], hist([("c4", dc.NOA, "x"), ("c1", dc.NOA, "")]) + [dict(renew, k="c4", m="c4", cis="ip:c4")]]
+
+
+def run_crash(ctx, binary, cfg, mode, histories, tag, every, repeat):
+    """interrupted rewrite of the lease file (RLIMIT_FSIZE = k for the acknowledged packet), restart on what is left, TLC judges"""
+    d = os.path.join(ctx.scratch, tag)
+    os.makedirs(d, exist_ok=True)
+    pp = os.path.join(d, "crash.json")
+    res_path = os.path.join(d, "results.ndjson")
+    json.dump({"phase": "crash", "cfg": cfg, "mode": mode, "histories": histories, "every": every, "extra": 40, "repeat": repeat}, open(pp, "w"))
+    p = vlib.run_driver(ctx, binary, ["-c18", pp, "-out", res_path, "-dir", d], timeout=1500)
+    st = json.loads(p.stdout.strip().splitlines()[-1])
+    results = vlib.read_ndjson(res_path)
+    empty = os.path.join(d, "nofiles.ndjson")
+    open(empty, "w").close()
+    r = tlc_file(ctx, "crash", dc.SHAPES[cfg]["N1"], empty, res_path, timeout=900)
+    if r.distinct != len(results):
+        raise vlib.InfraError("DhcpFile crash task evaluated %d of %d outcomes" % (r.distinct, len(results)))
+    verdicts = [j for j in r.json if isinstance(j, dict) and "guards" in j]
+    return results, verdicts, st, r
+
+
+def crash_again(ctx, binary, cfg, mode, history, k, guard, tag):
+    """re-run one crash point a few times (the block order of the file follows Go map order)"""
+    for attempt in range(6):
+        d = os.path.join(ctx.scratch, "%s-%d" % (tag, attempt))
+        os.makedirs(d, exist_ok=True)
+        pp = os.path.join(d, "crash.json")
+        res_path = os.path.join(d, "results.ndjson")
+        json.dump({"phase": "crash", "cfg": cfg, "mode": mode, "histories": [history], "every": 1 << 30, "extra": 0, "repeat": 1}, open(pp, "w"))
+        # every = huge: only the offsets 0 and the full size are generated; ask for k through a one-point plan instead
+        plan = json.load(open(pp))
+        plan["points"] = [k]
+        json.dump(plan, open(pp, "w"))
+        vlib.run_driver(ctx, binary, ["-c18", pp, "-out", res_path, "-dir", d], timeout=300)
+        results = [x for x in vlib.read_ndjson(res_path) if x["k"] == k]
+        if not results:
+            continue
+        for i, x in enumerate(results):
+            x["n"] = i + 1
+        vlib.write_ndjson(res_path, results)
+        empty = os.path.join(d, "nofiles.ndjson")
+        open(empty, "w").close()
+        r = tlc_file(ctx, "crash", dc.SHAPES[cfg]["N1"], empty, res_path, timeout=300)
+        for j in r.json:
+            if isinstance(j, dict) and guard in j.get("guards", []):
+                return True
+    return False
+
+
 def run(ctx):
     rng = random.Random(ctx.seed)
     # ---- part A: intact file, restarts inside histories
@@ -212,6 +267,40 @@ def run(ctx):
                 what = "%s (%s in the %s of a '%s' line%s)" % (WHAT.get(g, g), res["fault"], res["part"], v["tag"],
                                                                 (": " + res["msg"][:120]) if res.get("msg") else "")
                 ctx.report(key, what, replay)
+    # ---- part B2: the rewrite itself is interrupted (no assumption about what an interrupted rewrite leaves behind)
+    crash_eval = 0
+    cov["crash_runs"] = []
+    for cfg, mode in ((0, "secondary"), (2, "nice")):
+        hs = crash_histories()
+        tag = "c18-crash-cfg%d" % cfg
+        results, verdicts, st, r = run_crash(ctx, binary, cfg, mode, hs, tag, every=3 if ctx.quick else 1, repeat=1 if ctx.quick else 4)
+        cov["tlc"]["crash-" + tag] = r.summary()
+        crash_eval += len(results)
+        loaded = sum(1 for x in results if x["table"])
+        cov["crash_runs"].append({"cfg": cfg, "mode": mode, "histories": len(hs), "crash_points": len(results), "restarts_with_leases_loaded": loaded, "driver": st})
+        for x in results:
+            distinct.add(("crash", cfg, x["hist"], x["k"], x["n"]))
+        seen = set()
+        for v in verdicts:
+            res = results[v["n"] - 1]
+            if v["drift"]:
+                drift += 1
+                if len(cov.setdefault("drift", [])) < 30:
+                    cov["drift"].append({"source": tag, "k": res["k"], "size_left": res["size"], "previous_size": res["old"]})
+            for g in v["guards"]:
+                key = "C18:%s:fsize" % g
+                if key not in seen:
+                    if not crash_again(ctx, binary, cfg, mode, hs[res["hist"] - 1], res["k"], g, tag + "-confirm"):
+                        vlib.log("  %s at k=%d did not reproduce" % (key, res["k"]))
+                        cov.setdefault("unreproduced", []).append({"key": key, "k": res["k"]})
+                        continue
+                    seen.add(key)
+                ctx.report(key, "after a rewrite of the lease file interrupted at byte %d the restarted handler %s: %s" %
+                           (res["k"], "panics / hangs" if g == "C18_NoCrash" else "holds a binding that was never acknowledged",
+                            json.dumps([(t["k"], t["mac"], t["ip"]) for t in res["table"]])[:300] + " " + res.get("msg", "")),
+                           {"kind": "crash", "cfg": cfg, "mode": mode, "history": hs[res["hist"] - 1], "k": res["k"], "guard": g})
+    evaluations += crash_eval
+    cov["interrupted_rewrites"] = crash_eval
     cov["fault_classes"] = classes
     cov["drift_count"] = cov.get("drift_count", 0) + drift
     a_eval, a_dist = cov.get("evaluations", 0), cov.get("distinct_nontrivial", 0)
@@ -221,6 +310,7 @@ def run(ctx):
         "rule": "part B: one case = one concrete byte-level fault (prefix length / substituted byte / deleted or duplicated line) of a lease file "
                 "written by the real handler, handler restarted on it in a watchdogged worker and probed; abstract fault cases enumerated by TLC "
                 "(spec/DhcpFile.tla), cuts expanded to every prefix length, substitutions %s; distinct = distinct (file, fault, offset, byte). "
+                "part B2: one case = one rewrite of the lease file interrupted after k bytes (RLIMIT_FSIZE) + restart on what is left; "
                 "part A: one case = one history with restarts executed on the real handler and validated by TLC (spec/DhcpTrace.tla)"
                 % ("sampled %d per abstract case" % sample if sample else "at every offset with every byte of the alphabet"),
         "exhaustive": False,
@@ -236,6 +326,13 @@ def run(ctx):
 def replay(ctx, path):
     obj = json.load(open(path))
     rp = obj["replay"]
+    if rp.get("kind") == "crash":
+        binary = dc.build_driver(ctx)
+        if crash_again(ctx, binary, rp["cfg"], rp["mode"], rp["history"], rp["k"], rp["guard"], "replay-crash"):
+            print("VIOLATION property=%s replay=%s" % (ctx.pid, path))
+            return 1
+        print("not reproduced")
+        return 0
     if rp.get("kind") != "file":
         return dc.replay(ctx, path, ["C18"])
     binary = dc.build_driver(ctx)
